@@ -94,22 +94,6 @@ func c11Oracle(p *Plan) *Verdict {
 		v.Class = "builderr"
 		return v
 	}
-	for _, tf := range r.TaskFails {
-		if strings.Contains(tf, ".server") {
-			continue
-		}
-		// a goroutine of the handler (its reader or writer): a panic raised by the transcoder's code there takes the whole
-		// process down in a real server; a panic anywhere else is the simulator's own fault
-		if head, _, _ := strings.Cut(tf, ":"); strings.Contains(head, ".h") {
-			if site := panicSite([]byte(tf)); site != "" {
-				f := copyFacts(facts)
-				f["site"] = firstSite(site)
-				v.violate("panic", f, "the transcoder panicked on a goroutine of the handler: %s", truncate(tf, 900))
-				continue
-			}
-		}
-		v.Infra = append(v.Infra, "task failure: "+truncate(tf, 600))
-	}
 	for i, st := range r.RPCs {
 		if st.Rejected != "" {
 			v.probe("rejected-by-http-stack")
